@@ -103,5 +103,13 @@ PROPS = {
                      "EWMA checked one step at a time against prev*(1-L)+new*L with prev = the stream's own previous output and L = 1 - powf(1-s, dt) using the crate's powf obtained through ExponentStream; bound 24*2^-24*(|prev|+|new|)",
                      "moving average bound (48+8n)*2^-24*sum(w_i|x_i|)/W, n = samples in the window; first sample within 4 ulp (x*W/W is two roundings)"],
     ),
+    "C11": dict(
+        run=native, level=EXPL, technique="runtime reference-model monitor (f64 staged PID / integral / double-integral state machine with propagated forward bound) + bit-exact twin instance for set(same)",
+        rule="seeded histories of <=48 steps; each step optionally issues set(command) {same, same kind other value, other kind} or changes the followed command getter {command, absent, error} (every third history follows a getter), then feeds a state sample / absent / error and updates; distinct gains per kind; distinct = (command kind, sample index since restart, following?, set of restart causes seen so far)",
+        assumptions=["staging mirrored from the documentation: I and D of the error start at the 2nd sample of a run, integral of u from the 2nd, double integral from the 3rd",
+                     "forward bound (64+12n)*2^-24*(propagated sum of |terms|); largest observed ratio per kind reported",
+                     "an error from the followed command getter: only 'update returns it and the output is unchanged' is checked (statement silent)",
+                     "the error-reported clause is checked on the get() immediately after the erroring update only"],
+    ),
 }
 NOT_APPLICABLE = {}
